@@ -169,14 +169,43 @@ func ruleC03a(c *Ctx, rule string) {
 			call, ok := v.(*ssa.Call)
 			return ok && isCall(call, "builtin len")
 		}
-		zero := func(v ssa.Value) bool { k, ok := constInt(v); return ok && k == 0 }
-		if b.Op == token.EQL && a.pos && ((isLen(b.X) && zero(b.Y)) || (isLen(b.Y) && zero(b.X))) {
-			return true
+		// normalise to  len(x) OP k  holding on this edge
+		op, x, y := b.Op, b.X, b.Y
+		if isLen(y) && !isLen(x) {
+			x, y = y, x
+			switch op {
+			case token.LSS:
+				op = token.GTR
+			case token.GTR:
+				op = token.LSS
+			case token.LEQ:
+				op = token.GEQ
+			case token.GEQ:
+				op = token.LEQ
+			}
 		}
-		if b.Op == token.NEQ && !a.pos && ((isLen(b.X) && zero(b.Y)) || (isLen(b.Y) && zero(b.X))) {
-			return true
+		k, isK := constInt(y)
+		if !isLen(x) || !isK {
+			return false
 		}
-		return false
+		if !a.pos {
+			switch op {
+			case token.EQL:
+				op = token.NEQ
+			case token.NEQ:
+				op = token.EQL
+			case token.LSS:
+				op = token.GEQ
+			case token.GEQ:
+				op = token.LSS
+			case token.GTR:
+				op = token.LEQ
+			case token.LEQ:
+				op = token.GTR
+			}
+		}
+		// the edge establishes len(x) == 0
+		return (op == token.EQL && k == 0) || (op == token.LEQ && k == 0) || (op == token.LSS && k == 1)
 	}
 	n := 0
 	if fn := c.need(rule, "(*z.fileStore).iterate"); fn != nil {
@@ -278,25 +307,16 @@ func ruleC03b(c *Ctx, rule string) {
 			sortP = fl.Params[len(fl.Params)-2]
 		}
 		n := 0
-		for _, f := range withAnon(fl) {
+		for _, f := range withHelpers(c.P, fl) {
 			for _, call := range callsTo(f, "(*z.fileStore).iterate") {
 				n++
 				a := call.Common().Args
 				ok := false
 				if len(a) >= 4 {
-					if u, isU := a[3].(*ssa.UnOp); isU && u.Op == token.NOT {
-						x := u.X
-						if fv, isFV := x.(*ssa.FreeVar); isFV {
-							x = cellRoot(fv)
-						}
-						if ld, isLd := x.(*ssa.UnOp); isLd && ld.Op == token.MUL {
-							if sts := cellStores(fl, cellRoot(ld.X)); len(sts) == 1 {
-								x = sts[0].Val
-							}
-						}
+					if x, isNot := notOf(c.P, a[3], fl); isNot {
 						ok = x == ssa.Value(sortP)
 					}
-					if cb, isC := constBool(a[3]); isC && !cb {
+					if cb, isC := constBool(resolveVal(c.P, a[3], fl)); isC && !cb {
 						ok = true // never reusing is always safe
 					}
 				}
@@ -406,16 +426,11 @@ func ruleC03d(c *Ctx, rule string) {
 		}
 	}
 	n := 0
-	for _, f := range withAnon(fl) {
+	for _, f := range withHelpers(c.P, fl) {
 		for _, call := range callsTo(f, "(*z.fileStore).iterate") {
 			n++
 			a := call.Common().Args
-			ok := msP != nil && len(a) > 2 && root(a[2]) == ssa.Value(msP)
-			if !ok && len(a) > 2 {
-				if fv, isFV := a[2].(*ssa.FreeVar); isFV && cellRoot(fv) == ssa.Value(msP) {
-					ok = true
-				}
-			}
+			ok := msP != nil && len(a) > 2 && (root(a[2]) == ssa.Value(msP) || resolveVal(c.P, a[2], fl) == ssa.Value(msP))
 			c.check(rule, "flush merges the memstore", call.Pos(), ok, "fs.iterate receives flush's memstore parameter", "flush iterates the file without the memstore it is flushing (nil or another value): the flushed file lacks the buffered rows while the memstore is discarded")
 		}
 	}
